@@ -2,6 +2,7 @@
    Only property theorems here, each closed by `exact <lemma>`; proofs are in ProofsCache.v (cache, on the
    model C07.Defs shared with C07) and ProofsBuddy*.v (buddy allocator model of C08.Defs). *)
 From CppcmsV Require Import Base.Tac C07.Defs C07.Spec C07.Util C07.ProofsInv C08.Defs C08.ProofsCache.
+From CppcmsV Require Import C08.BuddyArith C08.ProofsBuddy C08.ProofsBuddy2 C08.ProofsBuddy3 C08.ProofsBuddy4 C08.ProofsBuddy5.
 Local Open Scope N_scope.
 
 (* ------------------------------------------------------------------------------------------------ *)
@@ -100,3 +101,77 @@ Example stats_nonvacuous :
   let ops := [Store [1] [9] [[7];[8]] 5%Z None FNone []; Store [2] [9] [[7]] 5%Z None FNone []; Rise [8]] in
   map snd (snd (run 0%Z ops (init 5))) = [(1,3); (2,5); (1,2)].
 Proof. vm_compute. reflexivity. Qed.
+
+(* ------------------------------------------------------------------------------------------------ *)
+(* 4. the buddy allocator (model C08.Defs of private/buddy_allocator.h).  `breach ms s`: s is reached from the
+      constructor over ms bytes by any sequence of malloc(req>0) and free of live blocks.
+      BInv s = no model error (free_page never reads bytes that are not a current page header)
+             /\ BGeo s  (Tiling: headers describe aligned power-of-two pages of order >= 5 inside the memory, pairwise
+                         disjoint, covering every byte up to the last 31; orders bounded by max_bit_size_)
+             /\ BFree s (free_list_[b] = exactly the pages of order b not marked in use, without repetition;
+                         NoFreeBuddies: a free page and its buddy of the same order are never both free).          *)
+Theorem buddy_invariant : forall ms s, ms - self_size < 2 ^ 63 -> breach ms s -> BInv s /\ b_msize s = ms - self_size.
+Proof. exact breach_inv. Qed.
+Print Assumptions buddy_invariant.
+
+Theorem buddy_tiling : forall ms s, ms - self_size < 2 ^ 63 -> breach ms s ->
+  (forall o b, geom s o = Some b -> o mod 2 ^ b = 0 /\ o + 2 ^ b <= b_msize s /\ 5 <= b) /\
+  (forall o1 b1 o2 b2, geom s o1 = Some b1 -> geom s o2 = Some b2 -> o1 <> o2 -> o1 + 2 ^ b1 <= o2 \/ o2 + 2 ^ b2 <= o1) /\
+  (forall x, x + 32 <= b_msize s -> exists o b, geom s o = Some b /\ o <= x /\ x < o + 2 ^ b).
+Proof.
+  intros ms s Hs H. destruct (breach_inv ms s Hs H) as [I _]. pose proof (bi_geo s I) as G.
+  split; [exact (bg_geo s G)|]. split; [exact (bg_disj s G)|exact (bg_cover s G)].
+Qed.
+Print Assumptions buddy_tiling.
+
+Theorem buddy_no_free_buddies : forall ms s, ms - self_size < 2 ^ 63 -> breach ms s ->
+  forall o b o', b_hdr s o = Some (b, false) -> get_buddy s o b = Some o' -> b_hdr s o' <> Some (b, false).
+Proof. intros ms s Hs H. destruct (breach_inv ms s Hs H) as [I _]. exact (bf_nobud s (bi_free s I)). Qed.
+Print Assumptions buddy_no_free_buddies.
+
+(* the address get_buddy computes is the start of a current page of at most the same order *)
+Theorem buddy_address_is_a_page : forall s p bits bd, BGeo s -> geom s p = Some bits -> get_buddy s p bits = Some bd ->
+  exists bb, geom s bd = Some bb /\ bb <= bits.
+Proof. exact buddy_is_page. Qed.
+Print Assumptions buddy_address_is_a_page.
+
+(* malloc: the block lies in a page that is inside the memory, has room for the request behind the 16-byte header,
+   is disjoint from every block that was live, and all live blocks stay live; nothing else becomes live *)
+Theorem malloc_disjoint : forall req s ptr s', BInv s -> 0 < req -> b_malloc req s = (Some ptr, s') ->
+  let bits := get_bits (malloc_size req) in
+  let p := ptr - 16 in
+  BInv s' /\ ptr = p + 16 /\ used s' p bits /\ req + 16 <= 2 ^ bits /\ p + 2 ^ bits <= b_msize s /\ b_msize s' = b_msize s /\
+  (forall o b, used s o b -> used s' o b /\ (o + 2 ^ b <= p \/ p + 2 ^ bits <= o)) /\
+  (forall o b, used s' o b -> (o = p /\ b = bits) \/ used s o b).
+Proof. exact malloc_ok. Qed.
+Print Assumptions malloc_disjoint.
+
+Theorem malloc_failure_changes_nothing : forall req s s', BInv s -> 0 < req -> b_malloc req s = (None, s') -> s' = s.
+Proof. exact malloc_fail_unchanged. Qed.
+Print Assumptions malloc_failure_changes_nothing.
+
+(* free of a live block: the invariant is kept and exactly that block stops being live *)
+Theorem free_releases_exactly : forall ptr bits s, BInv s -> used s (ptr - 16) bits ->
+  BInv (b_free ptr s) /\ b_msize (b_free ptr s) = b_msize s /\
+  (forall o b, used (b_free ptr s) o b <-> (used s o b /\ o <> ptr - 16)).
+Proof. exact free_ok. Qed.
+Print Assumptions free_releases_exactly.
+
+(* fill, empty, refill indefinitely: whenever no block is live, the page headers and the free lists (as sets) are
+   those of the freshly constructed allocator - whatever the history of splits and merges was *)
+Theorem free_all_restores : forall ms s, ms - self_size < 2 ^ 63 -> breach ms s -> (forall o b, ~ used s o b) ->
+  (forall o b u, b_hdr s o = Some (b, u) <-> b_hdr (b_init ms) o = Some (b, u)) /\
+  (forall o b, In o (b_fl s b) <-> In o (b_fl (b_init ms) b)).
+Proof. exact free_all_restores_full. Qed.
+Print Assumptions free_all_restores.
+
+Example buddy_nonvacuous :
+  let s0 := b_init 1544 in
+  let r1 := b_malloc 100 s0 in
+  let r2 := b_malloc 200 (snd r1) in
+  let s4 := b_free 528 (b_free 784 (snd r2)) in
+  fst r1 = Some 784 /\ fst r2 = Some 528 /\ fst (b_malloc 497 s0) = None /\ b_err s4 = false /\
+  map (b_fl (snd r2)) [5;6;7;8;9] = [[960]; [896]; []; []; [0]] /\
+  map (b_fl s4) [5;6;7;8;9] = map (b_fl s0) [5;6;7;8;9] /\
+  total_free_memory (snd r2) = 560 /\ total_free_memory s4 = 912.
+Proof. vm_compute. repeat split; reflexivity. Qed.
